@@ -56,6 +56,7 @@ BYTE_CONTAINERS = {"bytes::bytes_mut::BytesMut", "bytes::bytes::Bytes", "alloc::
 # two spellings of one library operation (chrono: `impl Sub<DateTime<Tz>> for DateTime<Tz>` is defined as
 # `self.signed_duration_since(rhs)`)
 CALLEE_ALIASES = {"chrono::datetime::DateTime::<Tz>::signed_duration_since": "core::ops::arith::Sub::sub"}
+BUILDER_PREFIX = "actix_web::response::builder::HttpResponseBuilder::"
 NOT_CALLEES = {"anyhow::__private::not", "core::ops::bit::Not::not"}
 
 # adapters that preserve the success payload: ok(adapter(x, ..)) == ok(x)
@@ -194,9 +195,9 @@ class Prov:
                         lty = self.body.locals[l]["ty"]
                         x = self.def_term(site)
                         if x[0] == "call" and x[1] != FROM_RESIDUAL and lty.startswith("core::result::Result<"):
-                            sub = (("Ok", ("ok", x)), ("Err", ("err", x)))
+                            sub = (("Ok", mk_ok(x)), ("Err", mk_err(x)))
                         elif x[0] == "call" and lty.startswith("core::option::Option<"):
-                            sub = (("Some", ("ok", x)), ("None", ("unit",)))
+                            sub = (("Some", mk_ok(x)), ("None", ("unit",)))
                     if sub is None:
                         okay = False
                         break
@@ -214,10 +215,10 @@ class Prov:
                     x = self.def_term(site)
                     if x[0] in ("call",) and x[1] != FROM_RESIDUAL and (lty.startswith("core::result::Result<") or lty.startswith("core::option::Option<")):
                         if lty.startswith("core::result::Result<"):
-                            per.setdefault("Ok", set()).add(("ok", x))
-                            per.setdefault("Err", set()).add(("err", x))
+                            per.setdefault("Ok", set()).add(mk_ok(x))
+                            per.setdefault("Err", set()).add(mk_err(x))
                         else:
-                            per.setdefault("Some", set()).add(("ok", x))
+                            per.setdefault("Some", set()).add(mk_ok(x))
                             per.setdefault("None", set()).add(("unit",))
                         continue
                     okay = False
@@ -370,6 +371,9 @@ class Prov:
                         rv_ = bydef[cur][0]
                         if rv_["k"] == "aggregate" and rv_["ak"] in ("array", "tuple") and all(o["k"] == "const" and "val" in o for o in rv_["ops"]):
                             return ("agg", rv_["ak"], tuple((str(i), ("const", None, o["val"], o["ty"])) for i, o in enumerate(rv_["ops"])))
+                        if rv_["k"] == "aggregate" and rv_["ak"] == "adt" and not rv_["ops"] and rv_.get("variant") is not None:
+                            # `const MIN_REQUESTED_URGENCY: SnapshotUrgency = SnapshotUrgency::Low`: the unit variant itself
+                            return ("agg", ("adt", rv_["adt"], rv_["variant"]), ())
                         if rv_["k"] == "use" and rv_["op"]["k"] in ("copy", "move") and all(e["k"] == "deref" for e in rv_["op"]["p"]["proj"]):
                             cur = rv_["op"]["p"]["l"]
                         elif rv_["k"] == "ref" and all(e["k"] == "deref" for e in rv_["p"]["proj"]):
@@ -534,6 +538,13 @@ class Prov:
                         if a is not None and a["k"] in ("copy", "move") and a["p"]["l"] in refs and not a["p"]["proj"]:
                             refs.add(t["dest"]["l"])
                             changed = True
+                    elif c and c.startswith(BUILDER_PREFIX) and t["args"] and t["args"][0]["k"] in ("copy", "move") \
+                            and t["args"][0]["p"]["l"] in refs and not t["args"][0]["p"]["proj"] \
+                            and t["dest"]["ty"] == t["args"][0]["p"].get("ty") and t["dest"]["ty"].startswith("&mut "):
+                        # a response-builder method returns the `&mut Self` it was given (`b.content_type(..)` -> `&mut b`): what
+                        # is called on the result is called on the same builder
+                        refs.add(t["dest"]["l"])
+                        changed = True
         out = []
         for b in body.blocks:
             if b["i"] not in self.live:
